@@ -320,6 +320,23 @@ func runC03(c *Ctx) {
 				syms := refTo5(append([]byte{ver}, randBytes(r, hl)...), 0)
 				body := refCashString(pfx, syms)
 				decodeCash(c, pfx+":"+body) // the valid string itself is accepted
+				// every single substitution inside the checksum and (sampled) the payload:
+				// a remainder compared on fewer than 40 bits shows up here
+				if (hl == 20 && typ == 0) || c.Thorough() {
+					for p := 0; p < len(body); p++ {
+						if p < len(body)-8 && !c.Thorough() && (p+int(c.Seed))%6 != 0 {
+							continue
+						}
+						for v := 0; v < 32; v++ {
+							if b32alpha[v] == body[p] {
+								continue
+							}
+							m := []byte(body)
+							m[p] = b32alpha[v]
+							decodeCash(c, pfx+":"+string(m))
+						}
+					}
+				}
 				for k := 0; k < perCombo; k++ {
 					w := 1 + k%5
 					m := []byte(body)
